@@ -280,6 +280,11 @@ func (b *bufferedSectionWriter) Flush() error {
 
 func (b *bufferedSectionWriter) Stop() error {
 	if b.stopCh != nil {
+		// No more requests: this also releases the writer when it is
+		// waiting for the next request (after Flush() has given up on
+		// an error).
+		close(b.reqCh)
+
 		// Wait for the last asynchronous write and collect its result.
 		prevWrite, ok := <-b.resCh
 		if ok && b.err == nil {
@@ -287,7 +292,6 @@ func (b *bufferedSectionWriter) Stop() error {
 		}
 
 		close(b.stopCh)
-		close(b.reqCh)
 		<-b.doneCh
 		b.stopCh = nil
 	}
